@@ -3,11 +3,13 @@ from __future__ import annotations
 
 import math
 import random
+import re
 import struct
 from typing import Any
 
 from harness.common import Ck
 from translate import c04_formulas as tr
+from translate import c04_inverse as tri
 
 MANIFEST = dict(
     technique='Rocq proof over R (ring/field/nsatz/nra) on formulas and a dispatch table regenerated from math.py by an ast '
@@ -33,6 +35,7 @@ MANIFEST = dict(
 CONCRETE = tr.CONCRETE
 KIND = tr.KIND
 DISP_IMPORTS = ['Coq.Lists.List', 'Coq.Bool.Bool', 'SV.Rot.RotDispatch', 'SV.Gen.RotDispatch_gen']
+GJ_IMPORTS = ['Coq.Lists.List', 'Coq.Bool.Bool', 'SV.Rot.RotGJ', 'SV.Gen.RotInverse_gen']
 TOL = 1e-9
 GIMBAL = 0.001
 
@@ -357,6 +360,129 @@ def corr_dispatch(ck: Ck, F: dict, rows: list[dict]) -> None:
         ck.extra['dispatch_disagreements'] = bad
 
 
+
+# =============================================================================================== inverse(): Gauss-Jordan
+def coq_float(x: float) -> str:
+    """An IEEE double as an exact Coq primitive-float term."""
+    if x != x:
+        return 'nan'
+    if x == math.inf:
+        return 'infinity'
+    if x == -math.inf:
+        return 'neg_infinity'
+    h = abs(x).hex()
+    return f'(opp {h})' if math.copysign(1.0, x) < 0 else h
+
+
+def gen_inverse_input(rng: random.Random) -> tuple[list[float], str]:
+    """One input matrix for inverse() with the name of its class."""
+    from srctools.math import Matrix
+    r = rng.random()
+    if r < 0.30:
+        (p, y, q), cls = gen_angle(rng)
+        return list(snapshot(Matrix.from_angle(p, y, q))), 'rotation-' + cls
+    if r < 0.45:
+        return [rng.uniform(-3, 3) for _ in range(9)], 'random'
+    if r < 0.55:      # small integers: many exact ties in the pivot search, many singular matrices
+        return [float(rng.randint(-2, 2)) for _ in range(9)], 'small-integers'
+    if r < 0.63:      # rank 2: third row is a combination of the first two
+        a, b = [rng.uniform(-2, 2) for _ in range(3)], [rng.uniform(-2, 2) for _ in range(3)]
+        k, l = rng.choice([0.0, 1.0, -1.0, rng.uniform(-2, 2)]), rng.choice([0.0, 1.0, rng.uniform(-2, 2)])
+        rows = [a, b, [k * x + l * y for x, y in zip(a, b)]]
+        rng.shuffle(rows)
+        return [x for row in rows for x in row], 'rank-2'
+    if r < 0.68:
+        a = [rng.uniform(-2, 2) for _ in range(3)]
+        return [k * x for k in (1.0, rng.uniform(-2, 2), rng.choice([0.0, 2.0])) for x in a], 'rank-1'
+    if r < 0.76:      # signed permutation matrices scaled: every pivot search needs a swap
+        perm = [0, 1, 2]
+        rng.shuffle(perm)
+        m = [0.0] * 9
+        for i, j in enumerate(perm):
+            m[3 * i + j] = rng.choice([1.0, -1.0]) * rng.choice([1.0, 2.0, 0.5, 1e-3, 1e3])
+        return m, 'permutation'
+    if r < 0.86:      # diagonal entries around the 1e-5 threshold
+        d = [rng.choice([1e-5, 0.99e-5, 1.01e-5, 9.999999999999999e-06, 1.0000000000000003e-05, -1e-5, 1.0, 3.0]) for _ in range(3)]
+        m = [rng.uniform(-1e-7, 1e-7) if rng.random() < 0.3 else 0.0 for _ in range(9)]
+        for i in range(3):
+            m[4 * i] = d[i]
+        return m, 'near-threshold'
+    if r < 0.93:      # wide range of magnitudes
+        return [rng.choice([-1, 1]) * 10.0 ** rng.uniform(-150, 150) for _ in range(9)], 'extreme-magnitude'
+    if r < 0.97:      # zeros and negative zeros
+        return [rng.choice([0.0, -0.0, 1.0, -1.0, 0.5]) for _ in range(9)], 'signed-zeros'
+    m = [rng.uniform(-3, 3) for _ in range(9)]
+    m[rng.randrange(9)] = rng.choice([math.inf, -math.inf, math.nan])
+    return m, 'non-finite'
+
+
+def run_inverse(vals: list[float]) -> tuple[str, list[float] | None]:
+    """What MatrixBase.inverse does on the raw nine values: ('ok', nine doubles) / ('noinverse', None) /
+    ('zerodiv', None); anything else is returned as ('other:<exception>', None)."""
+    try:
+        inv = raw_matrix(vals).inverse()
+    except ZeroDivisionError:
+        return 'zerodiv', None
+    except ArithmeticError as e:
+        return ('noinverse' if 'no inverse' in str(e) else f'other:{e!r}'), None
+    except Exception as e:    # noqa: BLE001
+        return f'other:{type(e).__name__}: {e}', None
+    return 'ok', list(snapshot(inv))
+
+
+INVERSE_CORPUS = [
+    [1.0, 0.0, 0.0, 0.0, 1.0, 0.0, 0.0, 0.0, 1.0], [2.0, 1.0, 0.0, 0.5, 3.0, 1.0, 0.0, 1.0, 4.0],
+    [0.0, 0.0, 1.0, 1.0, 0.0, 0.0, 0.0, 1.0, 0.0], [1.0, 2.0, 3.0, 2.0, 4.0, 6.0, 1.0, 0.0, 1.0],
+    [0.0] * 9, [1.0, 2.0, 3.0, 4.0, 5.0, 6.0, 7.0, 8.0, 9.0], [1.0, 0.0, 0.0, 0.0, 1.0, 0.0, 0.0, 0.0, 1e-5],
+    [1.0, 0.0, 0.0, 0.0, 1.0, 0.0, 0.0, 0.0, 1.0000000000000003e-05], [-1.0, 1.0, 0.0, 1.0, 1.0, 0.0, 0.0, 0.0, -0.0],
+]
+
+
+def corr_inverse(ck: Ck) -> None:
+    """The generic interpreter of the GENERATED program, instantiated with IEEE binary64 in Coq, against
+    MatrixBase.inverse: nine result doubles bit for bit, or the same exception."""
+    n = ck.budget(400, 4000)
+    cases: list[tuple[list[float], str, list[float] | None, str]] = []
+    for i in range(n):
+        vals, cls = (INVERSE_CORPUS[i], 'corpus') if i < len(INVERSE_CORPUS) else gen_inverse_input(ck.rng)
+        kind, res = run_inverse(vals)
+        ck.count('inverse_correspondence_cases')
+        ck.hist('inverse_input_class', cls)
+        ck.hist('inverse_outcome', kind.split(':')[0])
+        ck.seen(('inv', tuple(bits(v) for v in vals)))
+        cases.append((vals, kind, res, cls))
+    bad: list[dict] = []
+    for c in cases:
+        if c[1].startswith('other'):
+            bad.append({'input': c[0], 'class': c[3], 'implementation': c[1], 'model': 'cannot raise this'})
+    failed_eval = False
+    for lo in range(0, len(cases), 500):
+        chunk = cases[lo:lo + 500]
+        items = []
+        for vals, kind, res, _ in chunk:
+            exp = 'IOk [' + '; '.join(coq_float(x) for x in res) + ']' if kind == 'ok' else \
+                  'INoInverse' if kind == 'noinverse' else 'IZeroDiv'
+            items.append('([' + '; '.join(coq_float(x) for x in vals) + '], ' + exp + ')')
+        pre = ('Import ListNotations.\nOpen Scope float_scope.\nDefinition cases : list (list float * impl_res) := [\n'
+               + ';\n'.join(items) + '].\n')
+        vals_ = ck.coq_eval(['Coq.Floats.Floats', 'Coq.Lists.List', 'SV.Rot.RotGJ', 'SV.Rot.RotGJFloat', 'SV.Gen.RotInverse_gen'],
+                            ['disagreements inverse_prog 0 cases'], name='gjfloat', preamble=pre)
+        if vals_ is None:
+            failed_eval = True
+            break
+        idxs = [int(x) for x in re.findall(r'\d+', vals_[0])]
+        for k in idxs:
+            if len(bad) < 6:
+                vals, kind, res, cls = chunk[k]
+                bad.append({'input': vals, 'class': cls, 'implementation': kind if res is None else res})
+    ck.obligation('correspondence:inverse', not bad and not failed_eval,
+                  f'{len(cases)} matrices: Rot/RotGJ.v interpreter on the generated program over IEEE binary64 vs '
+                  f'MatrixBase.inverse, result bit for bit or same exception: '
+                  + ('could not be evaluated' if failed_eval else f'{len(bad)}+ disagreements'))
+    if bad or failed_eval:
+        ck.tie_broken.append('correspondence inverse (Gauss-Jordan interpreter over binary64 vs implementation)')
+        ck.extra['inverse_disagreements'] = bad
+
 # =============================================================================================== oracle search
 def tri_key(problem: str, lc: str, alias: bool) -> str:
     return f'{problem}:{lc}' + (':same-object' if alias else '')
@@ -644,13 +770,15 @@ def run(ck: Ck) -> None:
                    'Coq.Reals classical axioms (listed per theorem in axioms_per_theorem)']
     ok_f = ck.translate('RotFormulas_gen', tr.translate_formulas)
     ok_d = ck.translate('RotDispatch_gen', tr.translate_dispatch)
+    ok_i = ck.translate('RotInverse_gen', tri.translate_inverse)
     A = tr.analyse() if (ok_f and ok_d) else None
     built = False
-    if A is not None:
-        core = ck.build(['Rot/RotAlgebra.vo', 'Rot/RotEulerProofs.vo', 'Rot/RotDispatchProofs.vo', 'Gen/RotDispatch_gen.vo'])
-        built = core and ck.build(['Props/C04.vo'])
-        if built:
-            theorems_with_axioms(ck)
+    # 1. models and generated objects (definitions only: these compile whatever the source computes)
+    models = ck.build(['Rot/RotGJ.vo', 'Rot/RotGJFloat.vo', 'Rot/RotDispatch.vo']
+                      + (['Gen/RotFormulas_gen.vo', 'Gen/RotDispatch_gen.vo'] if A is not None else [])
+                      + (['Gen/RotInverse_gen.vo'] if ok_i else []))
+    # 2. instance obligations: the generated objects are accepted by the decidable tests of the generic theorems
+    if A is not None and models:
         ck.instance_obligations(DISP_IMPORTS, {
             'dispatch_matmul_rows_ok': 'forallb (fun t => triple_ok t && handled t) (rows_of FMatmul dispatch_table)',
             'dispatch_imatmul_rows_ok': 'forallb (fun t => triple_ok t && handled t) (rows_of FImatmul dispatch_table)',
@@ -663,8 +791,32 @@ def run(ck: Ck) -> None:
             ck.extra['dispatch_rows_rejected'] = vals[0]
         ck.extra['dispatch_table_rows'] = len(A['rows'])
         ck.extra['mat_mul_alias_safe'] = A['F']['mat_mul_alias_safe']
+    if ok_i and models:
+        ck.instance_obligations(GJ_IMPORTS, {
+            'inverse_left_block_is_self': 'init_l_ok inverse_prog',
+            'inverse_right_block_starts_as_identity': 'init_r_ok inverse_prog',
+            'inverse_result_is_right_block': 'out_ok inverse_prog',
+            'inverse_indexes_in_range': 'ops_in_range inverse_prog',
+            'inverse_left_block_becomes_identity': 'left_becomes_identity inverse_prog',
+            'inverse_prog_ok': 'gj_prog_ok inverse_prog',
+        }, name='gj')
+        vals = ck.coq_eval(GJ_IMPORTS, ['abs_run (gp_ops inverse_prog) top3'], name='gjabs')
+        if vals is not None:
+            ck.extra['inverse_left_block_final_pattern'] = vals[0]
+        ck.extra['inverse_program'] = [tri.coq_op(o) for o in tri.analyse()['P']['ops']]
+    # 3. the proofs about the generated formulas
+    if A is not None and models:
+        core = ck.build(['Rot/RotAlgebra.vo', 'Rot/RotAliasProofs.vo', 'Rot/RotEulerProofs.vo', 'Rot/RotDispatchProofs.vo',
+                         'Rot/RotGJProofs.vo'])
+        built = core and ck.build(['Props/C04.vo'])
+        if built:
+            theorems_with_axioms(ck)
+    # 4. correspondences
+    if A is not None:
         corr_formulas(ck, A['F'])
         corr_dispatch(ck, A['F'], A['rows'])
+    if ok_i and models:
+        corr_inverse(ck)
     found: dict[str, tuple[str, dict]] = {}
     search_operands(ck, found)
     search_identities(ck, found)
